@@ -363,7 +363,7 @@ class CalendarOrderProperty(webdav.Property):
         el.text = resource.get_calendar_order()
 
     async def set_value(self, href, resource, el):
-        resource.set_calendar_order(el.text)
+        resource.set_calendar_order(el.text if el is not None else None)
 
 
 class CalendarMultiGetReporter(davcommon.MultiGetReporter):
@@ -592,7 +592,7 @@ class CalendarColorProperty(webdav.Property):
         el.text = resource.get_calendar_color()
 
     async def set_value(self, href, resource, el):
-        resource.set_calendar_color(el.text)
+        resource.set_calendar_color(el.text if el is not None else None)
 
 
 class CreatedByProperty(webdav.Property):
